@@ -75,7 +75,8 @@ def run_indicator(repo: Repo, rel: str, fn: ast.FunctionDef, n: int, sequential:
     except Undecided as e:
         return ("undecided", str(e), it)
     except PyRaise as e:
-        return ("raises", e.name, it)
+        where = getattr(e, "where", None)
+        return ("raises", e.name + ((" in numba kernel " if getattr(e, "jit", False) else " in ") + where if where else ""), it)
     except RecursionError:
         return ("undecided", "recursion limit", it)
     except (ZeroDivisionError, OverflowError, ValueError, TypeError, IndexError, KeyError, AttributeError) as e:
